@@ -267,7 +267,7 @@ fn build_consumer_inner(name: &str, cases: &[CaseCode], with_serde_dep: bool, ex
                 }
             }
             match owner {
-                Some(id) => failed_now.entry(id).or_default().push(format!("{}: {}", code, text.chars().take(160).collect::<String>())),
+                Some(id) => failed_now.entry(id).or_default().push(format!("{}: {}", code, text.chars().take(1000).collect::<String>())),
                 None => out.global_errors.push(format!("{}: {}", code, text.chars().take(300).collect::<String>())),
             }
         }
